@@ -1,14 +1,14 @@
 SPECIFICATION Spec
 CONSTANTS
-  TreeSet <- TreesTiny
-  Ops <- OpsAll
-  MaxLen = 3
+  TreeSet <- TreesDeep
+  Ops <- OpsWalk
+  MaxLen = 2
   Prots <- ProtsDefault
-  FixDelete = FALSE
+  FixDelete = TRUE
   FixPatch = TRUE
   CacheTrunc = TRUE
 INVARIANT TypeOK
 INVARIANT Confined
 INVARIANT UnsafeRefused
-CHECK_DEADLOCK FALSE
 CONSTRAINT Modelled
+CHECK_DEADLOCK FALSE
